@@ -76,12 +76,17 @@ mi_family = st.tuples(st.sampled_from(sorted(FUNCS)), st.lists(st.sampled_from([
 _mi_classes = st.lists(st.sampled_from(["D1", "D2", "DD", "Base", "Mixed", "D3", "D4", "D5", "Mixed2"]), min_size=6, max_size=8, unique=True)
 mi_lists = st.tuples(st.sampled_from(sorted(FUNCS)), _mi_classes.flatmap(lambda cs: st.lists(st.permutations(cs), min_size=2, max_size=3).filter(lambda ps: ps[0][0] != ps[1][0]))).map(
     lambda p: [[p[0], [["list", [["inst", c] for c in perm]], ["list", [["inst", c] for c in perm]]]] for perm in p[1]])
-trace_sets = st.one_of(mi_family, mi_lists, st.lists(trace_spec, min_size=4, max_size=24), focused_set, twin_set,
+# ... and a hierarchy in which two common bases come in different MRO orders (MA*: Base before Other; MB*: Other before Base)
+_SW = ["MA1", "MA2", "MA3", "MB1", "MB2", "MB3"]
+mi_swapped_family = st.tuples(st.sampled_from(sorted(FUNCS)), st.permutations(_SW)).map(lambda p: [[p[0], [["inst", c], ["inst", c]]] for c in p[1]])
+mi_swapped_lists = st.tuples(st.sampled_from(sorted(FUNCS)), st.permutations(_SW), st.permutations(_SW)).map(
+    lambda p: [[p[0], [["list", [["inst", c] for c in perm]], ["list", [["inst", c] for c in perm]]]] for perm in (sorted(p[1]), sorted(p[2], reverse=True), list(p[1]), list(p[2]))])
+trace_sets = st.one_of(mi_family, mi_lists, mi_swapped_family, mi_swapped_lists, st.lists(trace_spec, min_size=4, max_size=24), focused_set, twin_set,
                        st.tuples(focused_set, st.lists(trace_spec, max_size=8)).map(lambda p: p[0] + p[1]))
 
 
 def _is_mi_list(v):
-    return v[0] == "list" and len(v[1]) >= 6 and all(e[0] == "inst" and e[1] in ("D1", "D2", "DD", "Base", "Mixed", "D3", "D4", "D5", "Mixed2") for e in v[1])
+    return v[0] == "list" and len(v[1]) >= 6 and all(e[0] == "inst" and e[1] in ("D1", "D2", "DD", "Base", "Mixed", "D3", "D4", "D5", "Mixed2", "MA1", "MA2", "MA3", "MB1", "MB2", "MB3") for e in v[1])
 
 
 def make_trace(ts, k):
@@ -529,13 +534,13 @@ def shard(ctx):
 
         @hypothesis.seed(ctx.shard_seed(13))
         @core.hyp_settings(2 if q else 5, shrink=False)
-        @given(mi_family)
+        @given(st.one_of(mi_family, mi_swapped_family, mi_swapped_lists))
         def collect_mi(tspecs):
             sets.append((tspecs, 0, "default"))
 
         @hypothesis.seed(ctx.shard_seed(14))
         @core.hyp_settings(3 if q else 8, shrink=False)
-        @given(st.one_of(mi_lists, mi_lists, mi_family, twin_set, focused_set), st.sampled_from([0, 3]))
+        @given(st.one_of(mi_lists, mi_lists, mi_swapped_lists, mi_family, twin_set, focused_set), st.sampled_from([0, 3]))
         def collect_lib(tspecs, k):
             libsets.append((tspecs, k, "default"))
 
